@@ -1008,9 +1008,15 @@ impl<'a, 'b, W: Write> Serializer for &'a mut YamlSerializer<'b, W> {
                         // If removing newlines makes it plain-safe, then the only problem was
                         // newlines → allow literal block style. Otherwise, don't auto-select block
                         // style so that quoting logic handles it (e.g., values ending with ':').
+                        // (Trailing spaces rule out the plain style but are kept by a block
+                        // scalar.)
                         let trimmed = v.trim_end_matches('\n');
                         let normalized = trimmed.replace('\n', " ");
-                        if is_plain_value_safe(&normalized, self.yaml_12, false) {
+                        if is_plain_value_safe(
+                            normalized.trim_end_matches(' '),
+                            self.yaml_12,
+                            false,
+                        ) {
                             self.pending_str_style = Some(StrStyle::Literal);
                             self.pending_str_from_auto = true;
                         }
@@ -1018,7 +1024,9 @@ impl<'a, 'b, W: Write> Serializer for &'a mut YamlSerializer<'b, W> {
                 }
             } else if self.prefer_block_scalars {
                 // Single-line string. If it needs quoting as a value, don't auto-fold.
-                let needs_quoting = !is_plain_value_safe(v, self.yaml_12, false);
+                // (Trailing spaces rule out the plain style but are kept by a block scalar.)
+                let needs_quoting =
+                    !is_plain_value_safe(v.trim_end_matches(' '), self.yaml_12, false);
                 if !needs_quoting {
                     // Measure in characters, not bytes.
                     if v.chars().count() > self.folded_wrap_col {
